@@ -255,3 +255,20 @@ func (p *Prog) ValueReferrers(fn *ssa.Function) []*ssa.Function {
 	}
 	return out
 }
+
+// UpParam resolves a parameter of a transparent helper that has exactly one transparent call site to the value the
+// caller passes (repeatedly); every other value is returned unchanged.
+func UpParam(v ssa.Value) ssa.Value {
+	for d := 0; d < maxInlineDepth; d++ {
+		x, ok := unwrap(v).(*ssa.Parameter)
+		if !ok {
+			return v
+		}
+		as := transparentArgs(x)
+		if len(as) != 1 {
+			return v
+		}
+		v = as[0]
+	}
+	return v
+}
